@@ -16,6 +16,7 @@ import (
 	"sort"
 	"strings"
 	"sync/atomic"
+	"syscall"
 	"time"
 
 	"ariga.io/atlas/sql/migrate"
@@ -31,6 +32,7 @@ import (
 var (
 	curCase atomic.Value // string: the case being run (for the watchdog)
 	beat    atomic.Int64
+	curLine atomic.Value // string: its case line
 	curFile *os.File // the case being run, for the supervising parent (a Go stack overflow cannot be recovered)
 	rawMode bool     // stage "raw": sqlx.SortChanges alone, on the unsorted change list
 )
@@ -38,6 +40,14 @@ var (
 // supervise runs the generator in a child process. Unbounded recursion in the planner
 // (= the loop the property excludes) kills a Go process with a fatal error that no
 // recover() sees; the parent then reports the case the child was running as the failing input.
+func userCPU() time.Duration {
+	var ru syscall.Rusage
+	if err := syscall.Getrusage(syscall.RUSAGE_SELF, &ru); err != nil {
+		return 0
+	}
+	return time.Duration(ru.Utime.Sec)*time.Second + time.Duration(ru.Utime.Usec)*time.Microsecond
+}
+
 func supervise(outDir string) {
 	cur := filepath.Join(outDir, "current.txt")
 	os.MkdirAll(outDir, 0o755)
@@ -81,15 +91,18 @@ func main() {
 		curFile = f
 	}
 	curCase.Store("")
-	// Watchdog: a single planner call that does not return within 20 s is a loop.
+	// Watchdog: a single planner call that burns 20 s of user CPU without returning is a loop.
+	// (CPU time, not wall time: on a loaded machine the process can be descheduled for long.)
 	go func() {
-		last, since := int64(-1), time.Now()
+		last, cpu0 := int64(-1), userCPU()
 		for {
 			time.Sleep(500 * time.Millisecond)
 			if b := beat.Load(); b != last {
-				last, since = b, time.Now()
-			} else if id := curCase.Load().(string); id != "" && time.Since(since) > 20*time.Second {
-				w.Violation(id, "loop", "planner call did not return within 20s")
+				last, cpu0 = b, userCPU()
+			} else if id := curCase.Load().(string); id != "" && userCPU()-cpu0 > 20*time.Second {
+				line, _ := curLine.Load().(string)
+				w.Case(id, line, []string{"sort out=loop", "mysql out=loop", "pg out=loop"})
+				w.Violation(id, "loop", "planner call did not return within 20s of CPU time; case: "+line)
 				w.Close()
 				os.Exit(0)
 			}
@@ -184,6 +197,7 @@ func runRawCase(w *out.W, id string, sc *scenario, tags ...string) {
 	}
 	seen[line] = true
 	curCase.Store(id)
+	curLine.Store(line)
 	beat.Add(1)
 	if curFile != nil {
 		curFile.Truncate(0)
@@ -307,6 +321,9 @@ var seen = map[string]bool{}
 // runCase runs one scenario on the three entry points, records case + observations,
 // and evaluates the oracle on the Go observations.
 func runCase(w *out.W, id string, sc *scenario, tags ...string) {
+	if only := os.Getenv("VERIF_SORT_ONLY"); only != "" && only != id {
+		return // debugging aid: run a single case of the (deterministic) generator
+	}
 	line := sc.caseLine()
 	if seen[line] {
 		w.Count("duplicate-skipped")
@@ -314,6 +331,7 @@ func runCase(w *out.W, id string, sc *scenario, tags ...string) {
 	}
 	seen[line] = true
 	curCase.Store(id)
+	curLine.Store(line)
 	beat.Add(1)
 	if curFile != nil {
 		curFile.Truncate(0)
@@ -349,6 +367,21 @@ func runCase(w *out.W, id string, sc *scenario, tags ...string) {
 			w.Violation(id, class, fmt.Sprintf("%s: %s; plan %s; case: %s", ep.name, v.msg, showOut(r.outp), line))
 		}
 		if ep.name == "sort" {
+			// the hypotheses of the theorems on this case, and C04_safe_exact's prediction
+			if scenarioWF(sc) && scenarioConsistent(sc) {
+				w.Count("hyp:WF+consistent")
+				predicted := "ok"
+				if cyc && !scenarioOrdered(sc) {
+					predicted = "fail"
+				}
+				if predicted == verdict {
+					w.Count("exact:predicted-" + verdict)
+				} else {
+					w.Count("exact:MISPREDICTED-" + verdict)
+				}
+			} else {
+				w.Count("hyp:not-WF-or-inconsistent")
+			}
 			if showOut(r.outp) != showOut(in) {
 				nontrivial = true
 			}
@@ -532,7 +565,7 @@ func pow(b, e int) int {
 
 func genExhaustive(w *out.W, tier string) {
 	w.Exhaust = true
-	w.Rule = "exhaustive: every directed FK graph with self loops over n<=3 tables (2^(n*n)) x every split of the tables into created/dropped/kept-and-modified (3^n) x 4 readings of a modified table's edges (added / dropped / re-pointed by ModifyForeignKey, with or without another column change) x every input order of the change list (n!); identical change sets are run once. thorough adds every graph over 4 tables x 8 seeded (split, reading, order) choices. Each case runs sqlx.DetachCycles+SortChanges, mysql.DefaultPlan and postgres.DefaultPlan. Non-trivial = the planned order differs from the input order (something was moved or detached); distinct by case line"
+	w.Rule = "exhaustive: every directed FK graph with self loops over n<=3 tables (2^(n*n)) x every split of the tables into created/dropped/kept-and-modified (3^n) x 4 readings of a modified table's edges (added / dropped / re-pointed by ModifyForeignKey, with or without another column change) x every input order of the change list (n!); identical change sets are run once; hyp:/exact: counters = on how many cases the hypotheses WF+consistent of the theorems hold and C04_safe_exact predicts the oracle's verdict. thorough adds every graph over 4 tables x 8 seeded (split, reading, order) choices. Each case runs sqlx.DetachCycles+SortChanges, mysql.DefaultPlan and postgres.DefaultPlan. Non-trivial = the planned order differs from the input order (something was moved or detached); distinct by case line"
 	id := 0
 	for n := 1; n <= 3; n++ {
 		ps := perms(n)
